@@ -101,6 +101,7 @@ func (s bufferHeader) isInUsed() bool {
 
 func (s bufferHeader) linkNext(next uint32) {
 	*(*uint32)(unsafe.Pointer(&s[nextBufferOffset])) = next
+	vp(vpLinkNextMid)
 	s[bufferFlagOffset] |= hasNextBufferFlag
 }
 
